@@ -19,8 +19,10 @@ use fil_actors_runtime::EAM_ACTOR_ADDR;
 use fvm_ipld_encoding::{BytesDe, BytesSer};
 use fvm_shared::address::Address;
 use fvm_shared::econ::TokenAmount;
+use num_traits::Zero;
 use serde_json::{Value, json};
 use std::collections::HashMap;
+use vm_api::VM;
 
 // ------------------------------------------------------------------------------------------------
 // Keccak-256 (own implementation)
@@ -761,11 +763,352 @@ pub fn hex_eth(a: &Eth) -> String {
 
 // ------------------------------------------------------------------------------------------------
 // Part 2: the C19 driver (`drive evmcalls ...`)
+//
+// World: a user `u`, script contracts A, B, C (code ids 1, 2, 3; deployed by u through the real EAM,
+// each endowed with 2 atto), plain receivers x1, x2 (f410 addresses, created on first receipt) and
+// the children the contracts create (CREATE2 salt sN / CREATE nonce n; child code id 9).  One event
+// per user message: the script, the flattened observations it returned, and the post-state as the
+// outside sees it (GetStorageAt / GetBytecode sent from f00, balances, effective events).
 
-pub fn main(_args: &[String]) {
+pub const KEYS: u8 = 3; // storage keys 0..KEYS-1 are observed
+const CHILD_CID: u8 = 9;
+
+pub struct CWorld {
+    pub v: VVM,
+    pub user: Address,
+    names: std::cell::RefCell<HashMap<Eth, Value>>,
+    last_msg: std::cell::Cell<(u64, u64)>,
+}
+
+fn cw_salt(name: &str) -> [u8; 32] {
+    let mut s = [0u8; 32];
+    s[31] = name.trim_start_matches('s').parse::<u8>().unwrap_or(77);
+    s
+}
+
+impl CWorld {
+    pub fn new(seed: u64) -> CWorld {
+        use fil_actors_runtime::runtime::Policy;
+        let v = VVM::genesis(Policy::default());
+        let user = v.create_accounts(1, seed, &TokenAmount::from_whole(1_000_000))[0];
+        let w = CWorld {
+            v,
+            user,
+            names: std::cell::RefCell::new(HashMap::new()),
+            last_msg: std::cell::Cell::new((0, 0)),
+        };
+        w.names.borrow_mut().insert(id_to_eth(user.id().unwrap()), json!(["u"]));
+        for (i, n) in ["A", "B", "C"].iter().enumerate() {
+            let (o, r) = create_external(&w.v, &user, &u_initcode(i as u8 + 1), &TokenAmount::zero());
+            assert!(o.ok(), "deploy {n}: {}", o.message);
+            let eth = r.unwrap().eth_address.0;
+            w.names.borrow_mut().insert(eth, json!([n]));
+        }
+        for n in ["A", "B", "C"] {
+            let a = eth_to_f4(&w.eth_of(&json!([n])));
+            let o = w.v.run(&user, &a, &TokenAmount::from_atto(2), fvm_shared::METHOD_SEND, None);
+            assert!(o.ok());
+        }
+        for n in ["x1", "x2"] {
+            let e: Eth = {
+                let mut a: Eth = keccak256(format!("recv:{n}").as_bytes())[..20].try_into().unwrap();
+                if a[0] == 0 || a[0] >= 0xfe {
+                    a[0] = 0x22;
+                }
+                a
+            };
+            w.names.borrow_mut().insert(e, json!([n]));
+        }
+        w
+    }
+
+    pub fn eth_of(&self, n: &Value) -> Eth {
+        let tag = n[0].as_str().unwrap();
+        let e = match tag {
+            "c2" => create2_address(&self.eth_of(&n[1]), &cw_salt(n[2].as_str().unwrap()), &u_initcode(CHILD_CID)),
+            "c1" => create_address(&self.eth_of(&n[1]), n[2].as_u64().unwrap()),
+            _ => {
+                let names = self.names.borrow();
+                *names.iter().find(|(_, v)| *v == n).unwrap_or_else(|| panic!("unknown name {n}")).0
+            }
+        };
+        self.names.borrow_mut().entry(e).or_insert_with(|| n.clone());
+        e
+    }
+    pub fn name_of(&self, e: &Eth) -> Value {
+        self.names.borrow().get(e).cloned().unwrap_or_else(|| json!(["unk", hex::encode(e)]))
+    }
+
+    fn to_cmds(&self, prog: &Value) -> Vec<Cmd> {
+        let b = |x: &Value| x.as_u64().unwrap() as u8;
+        prog.as_array()
+            .unwrap()
+            .iter()
+            .map(|o| match o["op"].as_str().unwrap() {
+                "sstore" => Cmd::SStore(b(&o["k"]), b(&o["v"])),
+                "sload" => Cmd::SLoad(b(&o["k"])),
+                "tstore" => Cmd::TStore(b(&o["k"]), b(&o["v"])),
+                "tload" => Cmd::TLoad(b(&o["k"])),
+                "log" => Cmd::Log(b(&o["t"])),
+                "env" => Cmd::Env,
+                "bal" => Cmd::Balance(self.eth_of(&o["a"])),
+                "revert" => Cmd::Revert,
+                "return" => Cmd::Return,
+                "invalid" => Cmd::Invalid,
+                "destroy" => {
+                    Cmd::Destroy(if o["ben"][0] == "caller" { [0u8; 20] } else { self.eth_of(&o["ben"]) })
+                }
+                "create" => Cmd::Create { value: b(&o["value"]), init: u_initcode(CHILD_CID) },
+                "create2" => Cmd::Create2 {
+                    value: b(&o["value"]),
+                    salt: cw_salt(o["salt"].as_str().unwrap()),
+                    init: u_initcode(CHILD_CID),
+                },
+                "call" => Cmd::Call {
+                    kind: match o["kind"].as_str().unwrap() {
+                        "call" => 0,
+                        "static" => 1,
+                        _ => 2,
+                    },
+                    to: self.eth_of(&o["to"]),
+                    value: b(&o["value"]),
+                    prog: self.to_cmds(&o["prog"]),
+                },
+                x => panic!("unknown op {x}"),
+            })
+            .collect()
+    }
+
+    fn small(w: &[u8; 32]) -> Value {
+        match word_u64(w) {
+            Some(x) if x < (1 << 31) => json!(x),
+            _ => json!(-1),
+        }
+    }
+
+    fn flatten(&self, prog: &[Cmd], obs: &[Obs], out: &mut Vec<Value>) {
+        for o in obs {
+            match o {
+                Obs::Read(i, w) => {
+                    let tag = match &prog[*i] {
+                        Cmd::SLoad(_) => "s",
+                        Cmd::TLoad(_) => "t",
+                        _ => "b",
+                    };
+                    out.push(json!([tag, Self::small(w)]));
+                }
+                Obs::Created(_, w) => {
+                    let e = word_eth(w);
+                    out.push(json!(["new", if e == [0u8; 20] { json!(["none"]) } else { self.name_of(&e) }]));
+                }
+                Obs::Env(_, ws) => out.push(json!(["env", self.name_of(&word_eth(&ws[0])),
+                    self.name_of(&word_eth(&ws[1])), Self::small(&ws[2]), Self::small(&ws[3]), Self::small(&ws[4])])),
+                Obs::Call(i, ok, _, sub) => {
+                    out.push(json!(["call", ok]));
+                    if let Cmd::Call { prog: p, .. } = &prog[*i] {
+                        self.flatten(p, sub, out);
+                    }
+                    out.push(json!(["end"]));
+                }
+            }
+        }
+    }
+
+    fn effective_events(&self, inv: &Inv, out: &mut Vec<Value>) {
+        if !inv.exit.is_success() {
+            return;
+        }
+        for ev in &inv.events {
+            let mut topic = json!(-1);
+            for en in &ev.event.entries {
+                if en.key == "t1" {
+                    let mut x: u64 = 0;
+                    for b in &en.value {
+                        x = (x << 8) | *b as u64;
+                    }
+                    topic = json!(x);
+                }
+            }
+            let em = self
+                .v
+                .actor(&Address::new_id(ev.emitter))
+                .and_then(|a| a.delegated_address)
+                .and_then(|d| match d.payload() {
+                    fvm_shared::address::Payload::Delegated(dd) => dd.subaddress().try_into().ok(),
+                    _ => None,
+                })
+                .map(|e: Eth| self.name_of(&e))
+                .unwrap_or(json!(["id", ev.emitter]));
+            out.push(json!([em, topic]));
+        }
+        for s in &inv.subs {
+            self.effective_events(s, out);
+        }
+    }
+
+    /// name the contracts created in this message by their derivation (deployer, salt | nonce),
+    /// from the EAM calls seen in the invocation tree
+    fn register_creations(&self, inv: &Inv) {
+        if inv.to == EAM_ACTOR_ADDR && (inv.method == 2 || inv.method == 3) && inv.exit.is_success() {
+            let r: EamReturn = inv.ret.as_ref().unwrap().deserialize().unwrap();
+            let deth: Option<Eth> = self
+                .v
+                .actor(&Address::new_id(inv.from))
+                .and_then(|a| a.delegated_address)
+                .and_then(|d| match d.payload() {
+                    fvm_shared::address::Payload::Delegated(dd) => dd.subaddress().try_into().ok(),
+                    _ => None,
+                });
+            if let (Some(de), Some(p)) = (deth, inv.params.as_ref()) {
+                let dn = self.name_of(&de);
+                let n = if inv.method == 2 {
+                    let c: fil_actor_eam::CreateParams = p.deserialize().unwrap();
+                    json!(["c1", dn, c.nonce])
+                } else {
+                    let c: fil_actor_eam::Create2Params = p.deserialize().unwrap();
+                    json!(["c2", dn, format!("s{}", c.salt[31])])
+                };
+                self.names.borrow_mut().entry(r.eth_address.0).or_insert(n);
+            }
+        }
+        for s in &inv.subs {
+            self.register_creations(s);
+        }
+    }
+
+    fn code_id(&self, code: &[u8]) -> i64 {
+        for i in [1u8, 2, 3, CHILD_CID] {
+            if code == u_runtime(i).as_slice() {
+                return i as i64;
+            }
+        }
+        if code.is_empty() { 0 } else { -1 }
+    }
+
+    pub fn project(&self, logs: Vec<Value>) -> Value {
+        use fil_actors_evm_shared::uints::U256;
+        use fil_actors_runtime::SYSTEM_ACTOR_ADDR;
+        use fil_actors_runtime::runtime::builtins::Type;
+        use fil_actors_runtime::test_utils::ACTOR_TYPES;
+        use fvm_ipld_blockstore::Blockstore;
+        let zero = TokenAmount::zero();
+        let mut con = vec![];
+        let mut bal = vec![];
+        for (addr, a) in self.v.actor_states() {
+            let Some(fvm_shared::address::Payload::Delegated(d)) = a.delegated_address.as_ref().map(|x| *x.payload())
+            else {
+                continue;
+            };
+            let Ok(eth): Result<Eth, _> = d.subaddress().try_into() else { continue };
+            let name = self.name_of(&eth);
+            if name[0] == "unk" {
+                continue;
+            }
+            let amt = a.balance.atto().clone();
+            let amt: i64 = num_traits::ToPrimitive::to_i64(&amt).filter(|x| *x < (1 << 31)).unwrap_or(-1);
+            bal.push(json!([name, amt]));
+            if ACTOR_TYPES.get(&a.code) != Some(&Type::EVM) {
+                continue;
+            }
+            let raw: fil_actor_evm::State = self.v.state(&addr).unwrap();
+            // storage and code as the outside sees them (API calls from f00)
+            let mut st = vec![];
+            for k in 0..KEYS {
+                let o = self.v.run_p(
+                    &SYSTEM_ACTOR_ADDR,
+                    &addr,
+                    &zero,
+                    fil_actor_evm::Method::GetStorageAt as u64,
+                    &fil_actor_evm::GetStorageAtParams { storage_key: U256::from(k as u64) },
+                );
+                assert!(o.ok(), "GetStorageAt: {}", o.message);
+                let r: fil_actor_evm::GetStorageAtReturn = o.de();
+                st.push(Self::small(&r.storage.to_big_endian()));
+            }
+            let o = self.v.run(&SYSTEM_ACTOR_ADDR, &addr, &zero, fil_actor_evm::Method::GetBytecode as u64, None);
+            assert!(o.ok(), "GetBytecode: {}", o.message);
+            let br: fil_actor_evm::BytecodeReturn = o.de();
+            let hc = match br.code {
+                Some(c) => !self.v.store.get(&c).unwrap().unwrap_or_default().is_empty(),
+                None => false,
+            };
+            let rawcode = self.v.store.get(&raw.bytecode).unwrap().unwrap_or_default();
+            let tomb = match raw.tombstone {
+                None => 0,
+                Some(t) if (t.origin, t.nonce) == self.last_msg.get() => 1,
+                Some(_) => 2,
+            };
+            con.push(json!([name, {"st": st, "nonce": raw.nonce, "tomb": tomb, "hc": hc,
+                                   "cid": self.code_id(&rawcode)}]));
+        }
+        json!({"con": con, "bal": bal, "logs": logs})
+    }
+
+    pub fn step(&self, m: &Value) -> Value {
+        let mut ev = m.clone();
+        ev["ev"] = json!("Msg");
+        ev["a"] = json!("Msg");
+        let prog = self.to_cmds(&m["prog"]);
+        let to = eth_to_f4(&self.eth_of(&m["to"]));
+        let val = TokenAmount::from_atto(m["value"].as_u64().unwrap());
+        let nonce = self.v.actor(&self.user).unwrap().sequence;
+        let (o, data) = invoke(&self.v, &self.user, &to, &encode(&prog), &val);
+        self.last_msg.set((self.user.id().unwrap(), nonce));
+        self.register_creations(&o.inv);
+        let mut obs = vec![];
+        self.flatten(&prog, &parse_out(&prog, &data), &mut obs);
+        let mut logs = vec![];
+        if o.ok() {
+            self.effective_events(&o.inv, &mut logs);
+        }
+        ev["ok"] = json!(o.ok());
+        ev["class"] = json!(o.class());
+        ev["code"] = json!(o.code.value());
+        ev["obs"] = json!(obs);
+        ev["st"] = self.project(logs);
+        ev
+    }
+}
+
+pub fn main(args: &[String]) {
+    let r = std::panic::catch_unwind(std::panic::AssertUnwindSafe(|| main_inner(args)));
+    if let Err(p) = r {
+        let m = p.downcast_ref::<String>().cloned().or_else(|| p.downcast_ref::<&str>().map(|s| s.to_string()));
+        eprintln!("evmcalls driver panicked: {}", m.unwrap_or_default());
+        std::process::exit(3);
+    }
+}
+
+fn main_inner(args: &[String]) {
+    use crate::util::*;
     self_test();
-    let _ = json!(null);
-    let _: Option<Value> = None;
-    eprintln!("evmcalls: not built yet");
-    std::process::exit(2);
+    let out = arg(args, "--out").expect("--out");
+    let seed = arg_u64(args, "--seed", 1);
+    let mut t = TraceOut::create(out);
+    let mut sched_out = arg(args, "--schedules").map(TraceOut::create);
+    let mut first = true;
+    let keys = format!("{{{}}}", (0..KEYS).map(|k| k.to_string()).collect::<Vec<_>>().join(", "));
+    let mut begin = |t: &mut TraceOut, w: &CWorld| {
+        let ev = if first { "Init" } else { "Reset" };
+        first = false;
+        t.line(&json!({"ev": ev, "const": {"Keys": keys}, "st": w.project(vec![])}));
+        t.traces += 1;
+    };
+    if let Some(b) = arg(args, "--behaviours") {
+        for (i, beh) in read_behaviours(b).iter().enumerate() {
+            let w = CWorld::new(seed + i as u64);
+            begin(&mut t, &w);
+            for m in beh {
+                t.line(&w.step(m));
+            }
+            if let Some(s) = sched_out.as_mut() {
+                s.line(&json!(beh));
+            }
+        }
+    }
+    t.flush();
+    if let Some(s) = sched_out.as_mut() {
+        s.flush();
+    }
+    println!("{}", json!({"driver": "evmcalls", "traces": t.traces, "events": t.events}));
 }
